@@ -6,6 +6,7 @@ package cworld
 
 import (
 	"fmt"
+	"net"
 	"strings"
 	"sync"
 	"time"
@@ -65,6 +66,8 @@ type Opts struct {
 	// precedence carries the principal's real etype / salt / parameters, the others carry decoys (DecoyEtype, other salts)
 	HintSeq    []int32 `json:"preauth_hint_sequence,omitempty"`
 	DecoyEtype int32   `json:"decoy_etype,omitempty"`
+	// ExtraAddresses, when set: noaddresses = false and extra_addresses = these (textual IPv4 / IPv6 addresses)
+	ExtraAddresses []string `json:"extra_addresses,omitempty"`
 	// UDPTooBig: every KDC answers KRB_ERR_RESPONSE_TOO_BIG over UDP, so that every exchange ends up on TCP
 	UDPTooBig bool `json:"udp_answers_response_too_big,omitempty"`
 }
@@ -105,7 +108,12 @@ func ConfText(o Opts) string {
 		return "false"
 	}
 	var sb strings.Builder
-	fmt.Fprintf(&sb, "[libdefaults]\n default_realm = %s\n dns_lookup_kdc = false\n dns_lookup_realm = false\n noaddresses = true\n", Realm)
+	fmt.Fprintf(&sb, "[libdefaults]\n default_realm = %s\n dns_lookup_kdc = false\n dns_lookup_realm = false\n", Realm)
+	if len(o.ExtraAddresses) > 0 {
+		fmt.Fprintf(&sb, " noaddresses = false\n extra_addresses = %s\n", strings.Join(o.ExtraAddresses, ","))
+	} else {
+		sb.WriteString(" noaddresses = true\n")
+	}
 	fmt.Fprintf(&sb, " ticket_lifetime = %ds\n", int(o.TicketLifetime/time.Second))
 	if o.RenewLifetime > 0 {
 		fmt.Fprintf(&sb, " renew_lifetime = %ds\n", int(o.RenewLifetime/time.Second))
@@ -146,8 +154,17 @@ func ExpectFor(o Opts) simkdc.Expect {
 		as |= simkdc.FlagRenewable
 		tgs |= simkdc.FlagRenewable
 	}
+	var extra []krbmsg.HostAddress
+	for _, a := range o.ExtraAddresses {
+		ip := net.ParseIP(a)
+		if v4 := ip.To4(); v4 != nil {
+			extra = append(extra, krbmsg.HostAddress{Type: 2, Addr: v4})
+		} else {
+			extra = append(extra, krbmsg.HostAddress{Type: 24, Addr: ip.To16()})
+		}
+	}
 	return simkdc.Expect{Check: true, ETypesAS: o.ETypes, ETypesTGS: o.ETypes, ASOptions: as, TGSOptions: tgs, TicketLifetime: o.TicketLifetime, RenewLifetime: o.RenewLifetime,
-		NoAddresses: true, Skew: 5 * time.Minute, ClientName: UserNames(o)}
+		NoAddresses: len(extra) == 0, ExtraAddresses: extra, Skew: 5 * time.Minute, ClientName: UserNames(o)}
 }
 
 // New builds the world: KDCs, network endpoints, configuration and client.
